@@ -185,6 +185,44 @@ public:
   using T_ShortType = int32_t;
 };
 }
+namespace rlbox {
+// B32L: the backend only has memory while it is live (between impl_create_sandbox and impl_destroy_sandbox):
+// a sandbox object that was never created, or that has been destroyed, contains no address at all
+class rlbox_vsbx_life : public rlbox_vsbx<uint32_t, 32>
+{
+public:
+  bool live = false;
+protected:
+  inline void impl_create_sandbox(uintptr_t b) { rlbox_vsbx<uint32_t, 32>::impl_create_sandbox(b); live = true; }
+  inline void impl_destroy_sandbox() { live = false; }
+  inline bool impl_is_pointer_in_sandbox_memory(const void* p)
+  {
+    auto a = reinterpret_cast<uintptr_t>(p);
+    return live && a >= this->base && a - this->base < SIZE;
+  }
+  inline bool impl_is_pointer_in_app_memory(const void* p) { return !impl_is_pointer_in_sandbox_memory(p); }
+};
+}
+namespace rlbox {
+// B64M: host-width representations that the backend masks into the region when it translates them (as a
+// mask-based 64-bit backend does): whatever 64 bits the guest writes, translation lands inside the sandbox
+class rlbox_vsbx_mask64 : public rlbox_vsbx<uint64_t, 32>
+{
+protected:
+  template<typename T>
+  inline void* impl_get_unsandboxed_pointer(T_PointerType p) const
+  {
+    return reinterpret_cast<void*>(this->base + static_cast<uintptr_t>(p & (SIZE - 1)));
+  }
+  template<typename T, typename T_Finder>
+  static inline void* impl_get_unsandboxed_pointer_no_ctx(T_PointerType p, const void* ex, T_Finder)
+  {
+    return reinterpret_cast<void*>((MASK & reinterpret_cast<uintptr_t>(ex)) + static_cast<uintptr_t>(p & (SIZE - 1)));
+  }
+};
+}
+using B64M = rlbox::rlbox_vsbx_mask64;
+using B32L = rlbox::rlbox_vsbx_life;
 using B32W = rlbox::rlbox_vsbx_wide;
 using B32 = rlbox::rlbox_vsbx<uint32_t, 32>;
 using B64 = rlbox::rlbox_vsbx<uint64_t, 32>;   // host-width, non-identity representation (offset from base)
